@@ -23,6 +23,21 @@ CLAIMED["C18"] = dict(
     note="Trusted: SimWriteCloser as a model of a failing file (short write + error, error sticky; Close error after release). The command-level path (real main, /dev/full) is covered by the command stage of this check once built; until then the claim is about the writer layer the commands call.",
 )
 
+CLAIMED["C01"] = dict(
+    level="exploration",
+    design="DESIGN.md 4 (C01)",
+    technique="deterministic simulation: simulated input endpoint (read sizes, zero reads, EOF-with-data), chunk-buffer size as a per-run knob swept over every cut position, seeded scheduler over chunk reader / parser workers / re-sequencer, generator ground truth + cross-configuration equality",
+    text="Generated FASTA/FASTQ/GenBank/EMBL files whose records are the ground truth are read through the real chunk splitter, chunk parsers, Read* functions and (for the transport stage) the real codec detection and decompressors, with the read-buffer size swept over every cut position of a fixed corpus and sampled elsewhere, 1-4 parser workers racing on the chunk channel under a seeded scheduler and adversarial read sizes; delivered records (ordered by batch number) must equal the ground truth and the records of a one-chunk/one-worker reference configuration, batch numbers must be 0..n-1, and the run must terminate.",
+    note="Trusted: the generator's idea of a well-formed file (conservative shapes only), the instrumenter, simrt. The buffer-size knob replaces the 1 MiB / 128 MiB constants (DESIGN.md 3.3). stdin/pipe transport is not simulated (a C read(2) on a pipe is not durably blocked); the kseq path is reached from the command stage.",
+)
+CLAIMED["C17"] = dict(
+    level="fault_enumeration",
+    design="DESIGN.md 4 (C17)",
+    technique="deterministic simulation with fault injection: truncation at every byte, bit flips, read error after k bytes on a simulated input endpoint under the real codec/sniffer/reader stack; outcome classification fatal vs silent acceptance",
+    text="Every truncation point, one or all bit flips per byte and a read error after every k bytes are injected into gzip, bzip2, xz and zstd images of FASTA/FASTQ files (exhaustively on 8 small images, sampled on generated files of all four formats), under the real Buf / sniffer / Read* stack and a seeded scheduler; the run must end in a fatal, a crash or a returned error, or - for a bit flip only - deliver every record unchanged. Violations are split by whether the decompression library itself notices the damage.",
+    note="Trusted: SimReader fault model; the harness transcribes the 12-line format dispatch of ReadSequencesFromFile for the library stage. Third-party decoders that return a clean EOF on some truncations are recorded as known findings (decoder-silent classes).",
+)
+
 PENDING = {
 }
 
